@@ -294,7 +294,7 @@ def r2(ctx):
     run = ctx.func(HP + ".run_haplotagphase")
     a2i = [s for s in util.store_sites(run.node) if s.kind == "subscript" and u(s.target.value.value if isinstance(s.target.value, ast.Subscript) else s.target.value) == "allele_to_id"]
     i2a = [s for s in util.store_sites(run.node) if s.kind == "subscript" and u(s.target.value.value if isinstance(s.target.value, ast.Subscript) else s.target.value) == "id_to_allele"]
-    ok = len(a2i) == 1 and len(i2a) == 1
+    ok = (None if not a2i else (len(a2i) == 1 and len(i2a) == 1))
     if ok:
         ok = u(a2i[0].target.slice) == u(i2a[0].value) and u(i2a[0].target.slice) == u(a2i[0].value) and u(a2i[0].target.value.slice) == u(i2a[0].target.value.slice) == "variant.position"
         lp = a2i[0].stmt.parent
@@ -385,7 +385,7 @@ def r3(ctx):
     allowed = {"phase_set", "int(%s.block_id) - 1" % (phv if loops and len(loops) == 1 else "phase")}
     odd = [s_ for s_ in stores if not (s_.kind == "subscript" and s_.value is not None and u(s_.value) in allowed)]
     rets_c = [n for n in walk_function(cs.node) if isinstance(n, ast.Return) and isinstance(n.value, ast.Tuple) and len(n.value.elts) == 2]
-    okr = len(fresh) == 1 and not rebound and not odd and len(stores) >= 2 and bool(rets_c) and all(u(r_.value.elts[1]) == "components" for r_ in rets_c)
+    okr = (None if not fresh else (len(fresh) == 1 and not rebound and not odd and len(stores) >= 2 and bool(rets_c) and all(u(r_.value.elts[1]) == "components" for r_ in rets_c)))
     bad_txt = ("components = %s" % (u(rebound[0].value)[:70] if isinstance(rebound[0], ast.Assign) else u(rebound[0])[:70])) if rebound else (odd[0].text()[:80] if odd else "the returned map is not `components`")
     ctx.ob(cs.qual, "phase-set-is-the-voted-or-carried-one", okr, cs.loc(rebound[0]) if rebound else (cs.loc(odd[0].stmt) if odd else cs.loc()), "components[pos] is only ever the winning vote's phase set (the reads' PS) or the input call's own block id; the map is returned as recorded" if okr else "`%s` changes the phase set of a position after it was recorded: a variant no longer gets the phase set of the reads that cover it / its input phase set" % bad_txt)
     # phased dict is filled for every variant of the table
